@@ -131,7 +131,7 @@ class DecodeMobileAlloc(Contract):
             return z3.Implies(z3.And(0 <= k, k < j), self.f_entry_ok(c, f, k, bound=i - 1))
         return [("i_range", z3.And(1 <= i, i <= S.NARFCN + 1)),
                 ("j_is_rank", j == S.rank(mask0, SERV, i - 1)),
-                ("j_below_vla_size", z3.And(0 <= j, j < Lb)),
+                ("j_within_list_capacity", z3.And(0 <= j, j <= Lb)),
                 ("hopp_len_zero", cur.get(c.a.hopp_len) == 0),
                 ("f_holds_first_j_members", c.forall(entries, "k"))]
 
